@@ -254,6 +254,56 @@ fn c02_slice_range() {
 }
 }
 
+// @harness id=c02_in_operator props=C02,C07 tier=quick cap=1500
+// @desc do_binary_op for `"f" in obj` on a one-layer object whose field f is present with ANY visibility (default, hidden `::`, forced `:::`) and `"g" in obj` for an absent field: `in` tests existence, not visibility, so the results are true and false
+// @bound one-layer objects, field f with symbolic visibility, field g absent
+// @funcs Evaluator::do_binary_op (In arm), ObjectData::has_field
+eval_stubs! {
+#[kani::proof]
+#[kani::unwind(6)]
+fn c02_in_operator() {
+    let arena = Arena::new();
+    let mut program = bare_program(&arena);
+    let f = program.str_interner.intern(&arena, "f");
+    let vis: u8 = kani::any();
+    kani::assume(vis < 3);
+    let visibility = match vis {
+        0 => ast::Visibility::Default,
+        1 => ast::Visibility::Hidden,
+        _ => ast::Visibility::ForceVisible,
+    };
+    let field = ObjectField::Normal(ObjectFieldData { base_env: None, visibility, expr: None, thunk: OnceCell::new() });
+    let obj = ObjectData {
+        self_layer: ObjectLayer {
+            is_top: false,
+            locals: &[],
+            base_env: None,
+            env: OnceCell::new(),
+            fields: FHashMap::kani_from_slots([Some((f, field)), None, None, None]),
+            asserts: &[],
+        },
+        super_layers: Vec::new(),
+        fields_order: OnceCell::new(),
+        asserts_checked: Cell::new(true),
+    };
+    let obj = GcView::kani_unmanaged(obj);
+    let keep = obj.clone();
+    let mut ev = bare_evaluator(&mut program);
+    let ask_f: bool = kani::any();
+    ev.value_stack.push(ValueData::String(if ask_f { "f".into() } else { "g".into() }));
+    ev.value_stack.push(ValueData::Object(Gc::from(&obj)));
+    let res = ev.do_binary_op(None, ast::BinaryOp::In);
+    assert!(res.is_ok(), "string in object is defined");
+    assert!(matches!(ev.value_stack.last(), Some(ValueData::Bool(b)) if *b == ask_f), "`in` sees every existing field, hidden ones included, and nothing else");
+    kani::cover!(ask_f && vis == 1, "hidden field found by `in`");
+    kani::cover!(!ask_f, "absent field");
+    core::mem::forget(res);
+    core::mem::forget(ev);
+    core::mem::forget(program);
+    core::mem::forget((obj, keep));
+}
+}
+
 // @harness id=c02_must_fail props=C02 tier=quick cap=1200 expect=fail
 // @desc vacuity twin for the binary-operator harnesses
 eval_stubs! {
